@@ -251,6 +251,9 @@ func (r *Run) Finish() int {
 		"violations": len(r.violSigs),
 	}
 	dir := filepath.Join(VerifDir(), "evidence")
+	if d := os.Getenv("VERIF_EVIDENCE_DIR"); d != "" {
+		dir = d // runs against a deliberately broken tree (tools/mutcheck.sh) keep their evidence apart
+	}
 	_ = os.MkdirAll(dir, 0o755)
 	b, _ := json.MarshalIndent(ev, "", " ")
 	if err := os.WriteFile(filepath.Join(dir, r.Prop+".json"), b, 0o644); err != nil {
